@@ -350,6 +350,12 @@ def toGnmi (tv : TV) : Except Fail GVal :=
   | .llDouble => .error .unsupportedType
   | .other _ => .error .unsupportedType
 
+/-- the pure round trip: what a client reads back (PROTO) for what it set. -/
+def roundTrip (g : GVal) (opts : List Nat) : Except Fail GVal :=
+  match toNative g opts with
+  | .ok tv => toGnmi tv
+  | .error e => .error e
+
 /-- the value `PathValuesToGnmiChange` puts into the southbound `SetRequest` for a stored
     path value that is not a delete (`NativeTypeToGnmiTypedValue(&pathValue.Value)`). -/
 def sentToDevice (tv : TV) : Except Fail GVal := toGnmi tv
